@@ -5,6 +5,10 @@ A case is a SCRIPT (JSON-able list of ops) run against one GPyRegression instanc
                                            (kernel=GPy.kern.Matern32) | 'noise' (noise_var=0.1): the last two must never take the fast path
   ['update', X, Y, optimize]               .update(np.array(X), np.array(Y), optimize)          -> evidence-order check
   ['optimize']                             .optimize()
+  ['optimize-fails'] / ['update-optimize-fails', X, Y]
+                                           .optimize() / .update(X, Y, optimize=True) while the GPy model's optimize() raises
+                                           np.linalg.LinAlgError (GPy's numerical failure mode, injected on the instance): no exception may
+                                           escape, the evidence must be intact (old ++ new) and the surrogate must stay usable
   ['sampling', flag]                       .is_sampling = flag
   ['predict', q]                           .predict(q) and .predictive_gradients(q) must equal GPy's own answers for the CURRENT _gp
                                            (reference: model._gp.predict / predictive_gradients called directly)
@@ -217,6 +221,35 @@ def run_script(script, shim=False, seconds=90):
                 elif k == 'optimize':
                     model.optimize()
                     state['changed'] = True
+                elif k in ('optimize-fails', 'update-optimize-fails'):
+                    def failing(*a, **kw):
+                        raise np.linalg.LinAlgError('not positive definite, even with jitter.')
+                    if k == 'optimize-fails':
+                        object.__setattr__(model._gp, 'optimize', failing)
+                        try:
+                            model.optimize()
+                        finally:
+                            object.__delattr__(model._gp, 'optimize')
+                    else:
+                        X, Y = np.array(op[1], dtype=float), np.array(op[2], dtype=float)
+                        make = model._make_gpy_instance
+
+                        def make_failing(*a, **kw):
+                            g = make(*a, **kw)
+                            object.__setattr__(g, 'optimize', failing)
+                            return g
+                        model._make_gpy_instance = make_failing
+                        want_X = np.concatenate([want_X, X.reshape((-1, model.input_dim))])
+                        want_Y = np.concatenate([want_Y, Y.reshape((-1, 1))])
+                        try:
+                            model.update(X, Y, True)
+                        finally:
+                            del model._make_gpy_instance
+                            if 'optimize' in model._gp.__dict__:
+                                object.__delattr__(model._gp, 'optimize')
+                    state['changed'] = True
+                    if not (np.array_equal(np.asarray(model.X), want_X) and np.array_equal(np.asarray(model.Y), want_Y)):
+                        raise Failure('c10:evidence-after-failed-optimize', 'after a failed hyper-parameter optimisation the evidence is not old ++ new')
                 elif k == 'sampling':
                     model.is_sampling = bool(op[1])
                 elif k == 'predict':
@@ -312,6 +345,10 @@ def make_script(rs, dim, kernel=None):
         script += [['sampling', True], ['predict', pts(1).tolist()], ['posterior', h, _queries(rs, dim, bounds, True)]]
     script.append(['sampling', False])
     script.append(['posterior', h, _queries(rs, dim, bounds, False)])
+    # GPy's numerical failure mode during hyper-parameter optimisation must be absorbed
+    Xn = pts(2)
+    script += [['optimize-fails'], ['predict', pts(1).tolist()], ['update-optimize-fails', Xn.tolist(), fy(Xn).tolist()], ['sampling', True], ['predict', pts(1).tolist()],
+               ['sampling', False]]
     return script
 
 
@@ -324,6 +361,12 @@ def canonical(kind, dim=2, seed=0):
     q = rs.rand(1, dim).tolist()
     if kind == 'threshold0':
         return [['new', dim, bounds, 5], ['update', X.tolist(), Y.tolist(), False], ['posterior', 0, [q]], ['posterior', 0.0, [q]], ['posterior', 0.5, [q]]]
+    if kind == 'optimize-fails':
+        return [['new', dim, bounds, 5], ['update', X.tolist(), Y.tolist(), False], ['optimize-fails'], ['predict', q]]
+    if kind == 'update-optimize-fails':
+        Xn = rs.rand(2, dim)
+        return [['new', dim, bounds, 5], ['update', X.tolist(), Y.tolist(), False],
+                ['update-optimize-fails', Xn.tolist(), (np.sum((Xn - 0.3) ** 2, axis=1) + 1.0).tolist()], ['predict', q]]
     s = [['new', dim, bounds, 5], ['update', X.tolist(), Y.tolist(), False], ['sampling', True], ['predict', q]]
     if kind == 'enter':
         return s
@@ -369,7 +412,7 @@ def run(tier='quick', seed=0, first_failure_only=False):
             scripts.append(make_script(rs, dim, kernel=(None if t % 4 != 3 else ('noise' if dim == 2 else 'matern'))))
     for script in scripts:
         f = run_script(script)
-        n_checks = sum(1 for op in script if op[0] in ('predict', 'posterior', 'update'))
+        n_checks = sum(1 for op in script if op[0] in ('predict', 'posterior', 'update', 'optimize-fails', 'update-optimize-fails'))
         if f is None:
             cases += n_checks
             k = 0
